@@ -359,7 +359,7 @@ def eval_sanitize(case):
     lines, impl, viol = [], [], []
     for s, chars in case["items"]:
         out = util.sanitize(s, chars) if chars else util.sanitize(s)
-        lines.append("sanitize %s %s" % (hexs(s), hexs(chars)))
+        lines.append("grid_sanitize %s %s" % (hexs(s), hexs(chars)))
         impl.append(hexs(out))
         banned = chars or '</|\\>:"?*'
         if any(c in banned for c in out) or [c for c in s if c not in banned] != list(out):
